@@ -57,7 +57,10 @@ func NewUfsSys(x *Ctx, srvMsize uint32, srvDotu bool, maxpend, debug int) *UfsSy
 	ufs.Id = "ufs"
 	ufs.Root = u.Root
 	ufs.Maxpend = maxpend
-	ufs.Debuglevel = debug &^ 3 // never the printing bits
+	ufs.Debuglevel = debug &^ 3 // the printing bits only on request (cfg printdbg): the log goes to io.Discard, the formatting still runs
+	if x.C.cfg("printdbg") != 0 {
+		ufs.Debuglevel |= go9p.DbgPrintFcalls
+	}
 	if ufs.Debuglevel != 0 {
 		ufs.Log = go9p.NewLogger(64)
 	}
